@@ -43,6 +43,9 @@ type vReg struct {
 	// goroutine (whose first action is b.Parent()) looks its parent up only after Accept returned.
 	gate sync.RWMutex
 	mu   sync.RWMutex
+	// touched: when armed for block number touchN, any read of that block's bytes/id is signalled
+	touchN  atomic.Uint64
+	touched chan struct{}
 	byN map[uint64]*vBlk
 	nOf map[ids.ID]uint64
 }
@@ -68,7 +71,7 @@ func (g *vReg) register(b *vBlk) *vBlk {
 	g.mu.Lock()
 	defer g.mu.Unlock()
 	if old, ok := g.byN[b.N]; ok {
-		if old.P != b.P || old.H != b.H || old.Inv != b.Inv {
+		if !old.same(b) {
 			return nil
 		}
 		return old
@@ -84,10 +87,23 @@ type vBlk struct {
 	P   uint64 `json:"p"`
 	H   uint64 `json:"h"`
 	Inv bool   `json:"inv"`
+	C   *uint64 `json:"c,omitempty"` // embedded P-Chain context (nil = none)
 	reg *vReg
 }
 
+func sameCtx(a, b *uint64) bool { return (a == nil) == (b == nil) && (a == nil || *a == *b) }
+
+func (b *vBlk) same(o *vBlk) bool {
+	return b.N == o.N && b.P == o.P && b.H == o.H && b.Inv == o.Inv && sameCtx(b.C, o.C)
+}
+
 func (b *vBlk) GetBytes() []byte {
+	if g := b.reg; g != nil && g.touched != nil && g.touchN.Load() == b.N && b.N != 0 {
+		select {
+		case g.touched <- struct{}{}:
+		default:
+		}
+	}
 	bs, err := json.Marshal(b)
 	if err != nil {
 		panic(err)
@@ -102,7 +118,12 @@ func (b *vBlk) GetParent() ids.ID {
 }
 func (*vBlk) GetTimestamp() int64          { return 0 }
 func (b *vBlk) GetHeight() uint64          { return b.H }
-func (*vBlk) GetContext() *block.Context   { return nil }
+func (b *vBlk) GetContext() *block.Context {
+	if b.C == nil {
+		return nil
+	}
+	return &block.Context{PChainHeight: *b.C}
+}
 func (b *vBlk) String() string             { return fBlk(b) }
 
 type vOut struct {
@@ -137,7 +158,12 @@ func b01(b bool) string {
 	}
 	return "0"
 }
-func fBlk(b *vBlk) string { return fmt.Sprintf("B(%d,%d,%d,%s)", b.N, b.P, b.H, b01(b.Inv)) }
+func fBlk(b *vBlk) string {
+	if b.C != nil {
+		return fmt.Sprintf("B(%d,%d,%d,%s,c%d)", b.N, b.P, b.H, b01(b.Inv), *b.C)
+	}
+	return fmt.Sprintf("B(%d,%d,%d,%s)", b.N, b.P, b.H, b01(b.Inv))
+}
 func fSt(l []uint64) string {
 	if len(l) == 0 {
 		return "-"
@@ -266,12 +292,16 @@ func (c *vChain) Initialize(ctx context.Context, in ChainInput, vm *VM[*vBlk, *v
 
 func (*vChain) SetConsensusIndex(*ConsensusIndex[*vBlk, *vOut, *vAcc]) {}
 
-func (c *vChain) BuildBlock(_ context.Context, _ *block.Context, parent *vOut) (*vBlk, *vOut, error) {
+func (c *vChain) BuildBlock(_ context.Context, bctx *block.Context, parent *vOut) (*vBlk, *vOut, error) {
 	if parent == nil {
 		c.x.log(vEvent{kind: "Bd"})
 		return nil, nil, errors.New("verif: build on nil parent")
 	}
 	b := &vBlk{N: c.nextN, P: parent.blk.N, H: parent.blk.H + 1}
+	if bctx != nil {
+		k := bctx.PChainHeight
+		b.C = &k
+	}
 	if rb := c.x.reg.register(b); rb != nil {
 		b = rb
 	} else {
@@ -294,6 +324,10 @@ func (c *vChain) ParseBlock(_ context.Context, bs []byte) (*vBlk, error) {
 }
 
 func (c *vChain) VerifyBlock(_ context.Context, parent *vOut, b *vBlk) (*vOut, error) {
+	if c.x.pauseArmed.CompareAndSwap(true, false) {
+		close(c.x.paused)
+		<-c.x.resume
+	}
 	if b.Inv {
 		c.x.log(vEvent{kind: "V", po: parent, b: b})
 		return nil, errVInvalid
@@ -363,6 +397,8 @@ type sx struct {
 	draining, inSync, awaiting, crashedFlag atomic.Bool
 	queued, arrived, finished               int
 	dead                                    bool
+	pauseArmed                              atomic.Bool
+	paused, resume                          chan struct{}
 	finishFailed                            bool
 	regConflict                             bool
 
@@ -549,7 +585,7 @@ func (x *sx) pre(f []string) bool {
 		return x.prefOK(verifh.U(f[1]))
 	case "start":
 		b := &vBlk{N: verifh.U(f[1]), P: verifh.U(f[2]), H: verifh.U(f[3]), Inv: f[4] == "1"}
-		same := b.N == e.lastAcc.N && b.P == e.lastAcc.P && b.H == e.lastAcc.H && b.Inv == e.lastAcc.Inv
+		same := b.same(e.lastAcc)
 		inflight := !x.dead && x.arrived > x.finished
 		return !e.syncing && !e.synced && len(e.processing) == 0 && x.queueLen() == 0 && !inflight && !b.Inv &&
 			(same || b.H > e.lastAcc.H)
@@ -558,7 +594,7 @@ func (x *sx) pre(f []string) bool {
 			return true
 		}
 		for _, c := range e.syncChain {
-			if c.N == verifh.U(f[1]) && c.P == verifh.U(f[2]) && c.H == verifh.U(f[3]) && c.Inv == (f[4] == "1") {
+			if c.same(&vBlk{N: verifh.U(f[1]), P: verifh.U(f[2]), H: verifh.U(f[3]), Inv: f[4] == "1"}) {
 				return true
 			}
 		}
@@ -636,13 +672,29 @@ func (x *sx) violation(key, format string, a ...any) {
 // run executes one (non-init) op line and returns the canonical output.
 func (x *sx) run(line string) string {
 	f := verifh.Fields(line)
+	// ops carrying a P-Chain context: parsec n p h inv k | verifyc h k | buildc n k
+	var ctxArg *uint64
+	if len(f) > 0 {
+		if base, ok := map[string]string{"parsec": "parse", "verifyc": "verify", "buildc": "build"}[f[0]]; ok {
+			if len(f) < 3 || !isUint(f[len(f)-1]) {
+				return "bad-op"
+			}
+			k := verifh.U(f[len(f)-1])
+			ctxArg = &k
+			f = append([]string{base}, f[1:len(f)-1]...)
+		}
+	}
 	if len(f) == 0 || !validLine(f) {
 		return "bad-op"
 	}
 	// block-number consistency (model ids are numbers)
 	var argBlk *vBlk
 	if f[0] == "parse" || f[0] == "start" || f[0] == "finish" {
-		argBlk = x.reg.register(&vBlk{N: verifh.U(f[1]), P: verifh.U(f[2]), H: verifh.U(f[3]), Inv: f[4] == "1"})
+		nb := &vBlk{N: verifh.U(f[1]), P: verifh.U(f[2]), H: verifh.U(f[3]), Inv: f[4] == "1"}
+		if f[0] == "parse" {
+			nb.C = ctxArg
+		}
+		argBlk = x.reg.register(nb)
 		if argBlk == nil {
 			return "bad-op"
 		}
@@ -694,7 +746,13 @@ func (x *sx) run(line string) string {
 	switch f[0] {
 	case "build":
 		x.ch.nextN = verifh.U(f[1])
-		b, err := vm.BuildBlock(x.ctx)
+		var b *vSB
+		var err error
+		if ctxArg != nil {
+			b, err = vm.BuildBlockWithContext(x.ctx, &block.Context{PChainHeight: *ctxArg})
+		} else {
+			b, err = vm.BuildBlock(x.ctx)
+		}
 		switch {
 		case err == nil:
 			res = retHandle(b, nil)
@@ -711,7 +769,12 @@ func (x *sx) run(line string) string {
 		res = retHandle(b, err)
 	case "verify":
 		wasVerified := hobj.verified
-		err := hobj.Verify(x.ctx)
+		var err error
+		if ctxArg != nil {
+			err = hobj.VerifyWithContext(x.ctx, &block.Context{PChainHeight: *ctxArg})
+		} else {
+			err = hobj.Verify(x.ctx)
+		}
 		switch {
 		case err == nil:
 			res = "ok"
@@ -719,6 +782,9 @@ func (x *sx) run(line string) string {
 			if wasVerified && wasReady {
 				x.feat(x.r, "verify-built-or-verified")
 			}
+		case errors.Is(err, errMismatchedPChainContext):
+			res = "err:ctx"
+			x.feat(x.r, "ctx-mismatch")
 		case errors.Is(err, errParentFailedVerification):
 			res = "err:parent"
 		case errors.Is(err, errVInvalid):
@@ -730,6 +796,24 @@ func (x *sx) run(line string) string {
 			res = "err:other"
 		}
 		ev = x.take()
+		// oracle: a Verify that returns an error must not have produced a verified notification, nor
+		// a successful inner VerifyBlock, nor a verified wrapper block, nor a processing entry
+		if err != nil {
+			for _, e := range ev {
+				if e.kind == "nV" || (e.kind == "V" && e.res != nil) {
+					x.violation("verify-failed-but-notified", "Verify of %s returned %v but emitted %s", fBlk(hobj.Input), err, e.String())
+				}
+			}
+			if hobj.verified && !wasVerified {
+				x.violation("verify-failed-but-notified", "Verify of %s returned %v but the block is now verified", fBlk(hobj.Input), err)
+			}
+			vm.verifiedL.RLock()
+			_, inVB := vm.verifiedBlocks[hobj.ID()]
+			vm.verifiedL.RUnlock()
+			if _, p := x.procNums()[hobj.Input.N]; inVB && !p {
+				x.violation("verify-failed-but-processing", "Verify of %s returned %v but the block is in verifiedBlocks", fBlk(hobj.Input), err)
+			}
+		}
 		// oracle: notifications of this decision
 		if err == nil && wasReady && !wasVerified {
 			if len(ev) != 2 || ev[0].kind != "V" || ev[1].kind != "nV" || ev[1].res != hobj.Output {
@@ -806,6 +890,12 @@ func (x *sx) run(line string) string {
 		if x.acSeen[b.N] || e.acceptedNum[b.N] != nil {
 			x.violation("rejected-then-accepted", "reject of accepted %s", fBlk(b))
 		}
+		vm.verifiedL.RLock()
+		_, still := vm.verifiedBlocks[hobj.ID()]
+		vm.verifiedL.RUnlock()
+		if still {
+			x.violation("rejected-block-still-served", "%s is still in verifiedBlocks after Reject", fBlk(b))
+		}
 		if wasVerified {
 			if len(ev) != 1 || ev[0].kind != "nR" || ev[0].res != hobj.Output {
 				x.violation("notification-mismatch", "reject of verified %s: events %v", fBlk(b), ev)
@@ -823,8 +913,11 @@ func (x *sx) run(line string) string {
 		n := verifh.U(f[1])
 		b, err := vm.GetBlock(x.ctx, x.reg.idOf(n))
 		res = retHandle(b, err)
+		if err == nil && x.eng.rejectedNum[n] && x.eng.acceptedNum[n] == nil {
+			x.violation("rejected-block-still-served", "GetBlock(%d) serves %s after the engine rejected it", n, fObj(b))
+		}
 		if want := x.eng.acceptedNum[n]; want != nil && x.retained(want.H) {
-			if err != nil || *b.Input != *want {
+			if err != nil || !b.Input.same(want) {
 				x.violation("lookup-mismatch", "GetBlock(%d) = %s, accepted block is %s", n, res, fBlk(want))
 			}
 		}
@@ -833,7 +926,7 @@ func (x *sx) run(line string) string {
 		b, err := vm.GetBlockByHeight(x.ctx, hh)
 		res = retHandle(b, err)
 		if want := x.eng.acceptedAt[hh]; want != nil && x.retained(hh) {
-			if err != nil || *b.Input != *want {
+			if err != nil || !b.Input.same(want) {
 				x.violation("lookup-mismatch", "GetBlockByHeight(%d) = %s, accepted block is %s", hh, res, fBlk(want))
 			}
 		}
@@ -978,6 +1071,8 @@ func (x *sx) run(line string) string {
 			}
 			if want > 0 && unN <= 0 {
 				x.violation("healthy-with-unrejected-invalid-block", "%d failed processing blocks not rejected, health reports %s", want, un)
+			} else if want == 0 && unN > 0 {
+				x.violation("unhealthy-forever", "every failed processing block has been rejected but health still reports %s unresolved", un)
 			} else if want != unN {
 				x.violation("unhealthy-count-mismatch", "expected %d unresolved, health reports %s", want, un)
 			}
@@ -1062,6 +1157,9 @@ func (x *sx) oracleEvents(ev []vEvent) {
 				x.violation("notification-mismatch", "expected %s, got %s", w.String(), e.String())
 			}
 			continue
+		}
+		if (e.kind == "V" && x.eng.rejectedNum[e.b.N]) || (e.kind == "nV" && e.res != nil && x.eng.rejectedNum[e.res.blk.N]) {
+			x.violation("verified-notification-after-reject", "%s for a block the engine has rejected", e.String())
 		}
 		switch e.kind {
 		case "V":
@@ -1179,6 +1277,7 @@ func (x *sx) oracleFinish(target *vBlk, st []uint64) {
 type vGen struct {
 	r      *verifh.Run
 	c21    bool
+	sync   bool // this sequence is a state-sync history
 	corpus []string
 	seqs   int
 	maxSeq int
@@ -1202,7 +1301,10 @@ func (g *vGen) initLine() string {
 	c, p := caps[rn.Intn(4)], caps[rn.Intn(4)]
 	w := []uint64{0, 0, 50000, uint64(4 + rn.Intn(5))}[rn.Intn(4)]
 	ready := 1
-	if g.c21 {
+	// state-sync histories: all of C21's sequences and a sixth of C20's (reject / lookup / notification
+	// behaviour of vacuously verified blocks belongs to the lifecycle too)
+	g.sync = g.c21 || rn.Intn(6) == 0
+	if g.sync {
 		w = []uint64{0, 50000}[rn.Intn(2)]
 		if rn.Intn(4) == 0 {
 			ready = 0
@@ -1221,6 +1323,9 @@ func (g *vGen) initLine() string {
 }
 
 func blkLine(op string, b *vBlk) string {
+	if b.C != nil {
+		return fmt.Sprintf("%sc %d %d %d %s %d", op, b.N, b.P, b.H, b01(b.Inv), *b.C)
+	}
 	return fmt.Sprintf("%s %d %d %d %s", op, b.N, b.P, b.H, b01(b.Inv))
 }
 
@@ -1257,8 +1362,8 @@ func (g *vGen) next(x *sx) string {
 		g.tail = []string{"cila", "last"}
 		return "health"
 	}
-	// C21 script points
-	if g.c21 {
+	// state-sync script points
+	if g.sync {
 		e := &x.eng
 		if !e.syncing && !e.synced && g.step > g.syncAt && g.syncAt >= 0 {
 			if x.pending() > 0 {
@@ -1319,7 +1424,7 @@ func (g *vGen) next(x *sx) string {
 			return []string{"health", "cila", "cipref"}[rn.Intn(3)]
 		}
 	}
-	if g.step > g.budget+g.finAt*b2i(g.c21) {
+	if g.step > g.budget+g.finAt*b2i(g.sync) {
 		// drain and final lookups
 		if x.pending() > 0 {
 			return "fin"
@@ -1360,6 +1465,13 @@ func (g *vGen) randomOp(x *sx) string {
 	if rn.Intn(100) < 85 {
 		for _, p := range e.processing {
 			if x.pre([]string{"reject", strconv.Itoa(p)}) {
+				// often look the rejected block up / re-parse it right away
+				switch rb := x.objs[p].Input; rn.Intn(4) {
+				case 0:
+					g.tail = []string{fmt.Sprintf("get %d", rb.N)}
+				case 1:
+					g.tail = []string{blkLine("parse", rb), fmt.Sprintf("get %d", rb.N)}
+				}
 				return "reject " + strconv.Itoa(p)
 			}
 		}
@@ -1382,8 +1494,11 @@ func (g *vGen) randomOp(x *sx) string {
 		switch k := rn.Intn(100); {
 		case k < 12:
 			// no locally built blocks before a planned state sync (a node that is about to sync has just booted)
-			preSync := g.c21 && !e.syncing && !e.synced
+			preSync := g.sync && !e.syncing && !e.synced
 			if !preSync && x.pre([]string{"build"}) && (x.vm.ready || rn.Intn(4) == 0) {
+				if !g.sync && rn.Intn(100) < 15 {
+					return fmt.Sprintf("buildc %d %d", g.fresh(), 1+rn.Intn(2))
+				}
 				return fmt.Sprintf("build %d", g.fresh())
 			}
 		case k < 30:
@@ -1395,7 +1510,12 @@ func (g *vGen) randomOp(x *sx) string {
 					}
 				}
 			}
-			return blkLine("parse", &vBlk{N: g.fresh(), P: par.N, H: par.H + 1, Inv: rn.Intn(100) < 20})
+			nb := &vBlk{N: g.fresh(), P: par.N, H: par.H + 1, Inv: rn.Intn(100) < 20}
+			if !g.sync && rn.Intn(100) < 20 {
+				k := uint64(1 + rn.Intn(2))
+				nb.C = &k
+			}
+			return blkLine("parse", nb)
 		case k < 36:
 			x.feat(g.r, "reparse-known")
 			return blkLine("parse", known())
@@ -1407,7 +1527,18 @@ func (g *vGen) randomOp(x *sx) string {
 				}
 			}
 			if len(c) > 0 {
-				return "verify " + strconv.Itoa(c[len(c)-1-rn.Intn(min(len(c), 3))])
+				h := c[len(c)-1-rn.Intn(min(len(c), 3))]
+				// the engine supplies the P-Chain context: usually the embedded one, sometimes none / another
+				bc := x.objs[h].Input.C
+				switch q := rn.Intn(100); {
+				case bc != nil && q < 70:
+					return fmt.Sprintf("verifyc %d %d", h, *bc)
+				case bc != nil && q < 85:
+					return fmt.Sprintf("verifyc %d %d", h, *bc+1)
+				case bc == nil && q < 8 && !g.sync:
+					return fmt.Sprintf("verifyc %d 1", h)
+				}
+				return "verify " + strconv.Itoa(h)
 			}
 		case k < 70:
 			var c []int
@@ -1462,6 +1593,20 @@ var corpusC20 = []string{
 	"accept 1", "accept 2", "accept 3", "fin", "fin", "last", "verify 3", "health",
 }
 
+// fork rejected while syncing, then looked up / re-parsed / finish / health
+var corpusSyncReject = []string{
+	"init 2 2 0 100 99 0 1", "start 100 99 0 0", "parse 101 100 1 0", "verify 2", "parse 102 100 1 0", "verify 3", "accept 3", "reject 2",
+	"get 101", "parse 101 100 1 0", "finish 102 100 1 0 102", "health", "get 101", "cila",
+	"init 2 2 0 100 99 0 1", "start 100 99 0 0", "parse 101 100 1 0", "verify 2", "parse 102 100 1 0", "verify 3", "accept 3", "reject 2",
+	"finish 100 99 0 0 100", "health", "get 101", "cila", "last",
+}
+
+// P-Chain context supplied by the engine: none / mismatching / matching, parsed and built blocks
+var corpusCtx = []string{
+	"init 2 2 0 100 99 0 1", "parsec 101 100 1 0 1", "verifyc 1 2", "verify 1", "get 101", "parsec 101 100 1 0 1", "verifyc 1 1", "accept 1", "fin",
+	"pref 101", "buildc 102 7", "verify 2", "verifyc 2 8", "verifyc 2 7", "parse 103 101 2 0", "verifyc 3 1", "verify 3", "cipref", "last",
+}
+
 var corpusC21 = []string{
 	// finish at the original target
 	"init 2 2 0 100 99 0 1", "start 100 99 0 0", "health", "parse 101 100 1 0", "verify 2", "pref 101", "accept 2", "cila",
@@ -1484,10 +1629,10 @@ func runSnow(t *testing.T, id string, c21 bool) {
 	lines := r.ReplayLines()
 	g := &vGen{r: r, c21: c21}
 	if c21 {
-		g.corpus = append([]string{}, corpusC21...)
+		g.corpus = append(append([]string{}, corpusC21...), corpusSyncReject...)
 		g.maxSeq = r.N(300, 6000)
 	} else {
-		g.corpus = append([]string{}, corpusC20...)
+		g.corpus = append(append(append([]string{}, corpusC20...), corpusSyncReject...), corpusCtx...)
 		g.maxSeq = r.N(400, 8000)
 	}
 	var x *sx
@@ -1567,3 +1712,171 @@ func (x *sx) endSeq() {
 
 func TestVerifC20(t *testing.T) { runSnow(t, "C20", false) }
 func TestVerifC21(t *testing.T) { runSnow(t, "C21", true) }
+
+
+// ---------------------------------------------------------------- C21: Verify racing with the hand-over (oracle only)
+
+// raceRound: state sync with `behind` blocks accepted while syncing and nproc vacuously verified
+// processing blocks; FinishStateSync is paused inside its first inner VerifyBlock (it holds chainLock),
+// meanwhile another goroutine calls Verify on a new block; then the hand-over is released.
+// Claim checked: after the hand-over every block whose Verify returned nil is either really verified
+// (inner VerifyBlock ran) or tracked by the unresolved-blocks health check.
+func raceRound(t *testing.T, r *verifh.Run, f []string) string {
+	nproc, invMask, childOf, candInv, behind := int(verifh.U(f[1])), verifh.U(f[2]), int(verifh.U(f[3])), f[4] == "1", int(verifh.U(f[5]))
+	x := newSeq(t, r, 3, 128, 0, &vBlk{N: 100, P: 99, H: 0}, true)
+	defer x.shutdown()
+	x.take() // startup notification
+	x.reg.touched = make(chan struct{}, 1)
+	x.paused, x.resume = make(chan struct{}), make(chan struct{})
+	x.run("start 100 99 0 0")
+	next := uint64(100)
+	tip := x.eng.lastAcc
+	for i := 0; i < behind; i++ {
+		next++
+		x.run(blkLine("parse", &vBlk{N: next, P: tip.N, H: tip.H + 1}))
+		x.run(fmt.Sprintf("verify %d", len(x.objs)-1))
+		x.run(fmt.Sprintf("accept %d", len(x.objs)-1))
+		tip = x.eng.lastAcc
+	}
+	// processing blocks: a chain hanging off the tip
+	procs := []*vSB{}
+	par := tip
+	for i := 0; i < nproc; i++ {
+		next++
+		b := &vBlk{N: next, P: par.N, H: par.H + 1, Inv: invMask&(1<<uint(i)) != 0}
+		x.run(blkLine("parse", b))
+		x.run(fmt.Sprintf("verify %d", len(x.objs)-1))
+		procs = append(procs, x.objs[len(x.objs)-1])
+		par = b
+	}
+	// the candidate the engine verifies during the hand-over
+	cp := tip
+	if childOf > 0 && childOf <= len(procs) {
+		cp = procs[childOf-1].Input
+	}
+	next++
+	x.run(blkLine("parse", &vBlk{N: next, P: cp.N, H: cp.H + 1, Inv: candInv}))
+	cand := x.objs[len(x.objs)-1]
+	x.take()
+
+	target := x.eng.syncChain[0]
+	st := []uint64{target.N}
+	x.pauseArmed.Store(true)
+	x.inSync.Store(true)
+	finDone, verDone := make(chan error, 1), make(chan error, 1)
+	go func() { finDone <- x.vm.FinishStateSync(x.ctx, target, &vOut{target, st}, &vAcc{target, st}) }()
+	select {
+	case <-x.paused:
+	case err := <-finDone: // no inner VerifyBlock happened (cannot be: the tip has a processing child)
+		x.inSync.Store(false)
+		return fmt.Sprintf("finish-not-paused err=%v", err)
+	case <-time.After(10 * time.Second):
+		r.Violation("handover-hang", "FinishStateSync neither paused nor returned")
+		return "hang"
+	}
+	// FinishStateSync is inside verifyProcessingBlocks/reprocessing and holds chainLock
+	x.reg.touchN.Store(cand.Input.N)
+	go func() { verDone <- cand.Verify(x.ctx) }()
+	early := false
+	select {
+	case <-x.reg.touched: // Verify got past its entry while the hand-over is in progress
+		early = true
+		time.Sleep(5 * time.Millisecond)
+	case err := <-verDone:
+		verDone <- err
+		early = true
+	case <-time.After(60 * time.Millisecond): // blocked on chainLock (expected)
+	}
+	x.reg.touchN.Store(0)
+	close(x.resume)
+	var ferr, verr error
+	for i := 0; i < 2; i++ {
+		select {
+		case ferr = <-finDone:
+		case verr = <-verDone:
+		case <-time.After(10 * time.Second):
+			r.Violation("handover-hang", "FinishStateSync / Verify did not return after the hand-over was released")
+			return "hang"
+		}
+	}
+	x.inSync.Store(false)
+	ev := x.take()
+	// inspection
+	unresolved := map[ids.ID]bool{}
+	nun := -1
+	if hc, ok := x.vm.healthCheckers.Load(unresolvedBlocksHealthChecker); ok {
+		u := hc.(*unresolvedBlockHealthCheck[*vBlk])
+		u.lock.RLock()
+		nun = u.unresolvedBlocks.Len()
+		for _, p := range append(append([]*vSB{}, procs...), cand) {
+			if u.unresolvedBlocks.Contains(p.ID()) {
+				unresolved[p.ID()] = true
+			}
+		}
+		u.lock.RUnlock()
+	}
+	innerVerified := map[uint64]bool{}
+	for _, e := range ev {
+		if e.kind == "V" && e.res != nil {
+			innerVerified[e.b.N] = true
+		}
+	}
+	if ferr == nil {
+		held := append([]*vSB{}, procs...)
+		if verr == nil {
+			held = append(held, cand)
+		}
+		for _, p := range held {
+			really := p.verified && innerVerified[p.Input.N]
+			if !really && !unresolved[p.ID()] {
+				r.Violation("vacuous-verify-after-handover", "after the hand-over %s (Verify returned nil) is neither really verified nor in the unresolved set (verify overlapped finish: early=%v)", fObj(p), early)
+			}
+		}
+		// what the engine must get for the candidate once the VM is ready
+		parentOK := cp == tip
+		if !parentOK {
+			parentOK = procs[childOf-1].verified
+		}
+		wantOK := parentOK && !candInv
+		if x.vm.ready && (verr == nil) != wantOK && !unresolved[cand.ID()] {
+			r.Violation("handover-verify-result", "Verify of %s during the hand-over returned %v, parent verified=%v", fBlk(cand.Input), verr, parentOK)
+		}
+	}
+	r.Count(fmt.Sprintf("race:early=%v", early))
+	return fmt.Sprintf("finish=%s verify=%s cand=[%s] unresolved=%d", verifh.Err(ferr), verifh.Err(verr), fObj(cand), nun)
+}
+
+func TestVerifC21Race(t *testing.T) {
+	r := verifh.Start("C21")
+	defer r.Finish()
+	lines := r.ReplayLines()
+	if lines == nil {
+		// corpus: the plain scenario, then random shapes
+		lines = []string{"race 1 0 1 0 0", "race 1 0 0 0 0", "race 2 1 2 0 1", "race 1 0 1 1 0"}
+		for i := 0; i < r.N(30, 400); i++ {
+			np := 1 + r.RNG.Intn(3)
+			mask := uint64(0)
+			if r.RNG.Intn(3) == 0 {
+				mask = uint64(r.RNG.Intn(1 << uint(np)))
+			}
+			lines = append(lines, fmt.Sprintf("race %d %d %d %s %d", np, mask, r.RNG.Intn(np+1), b01(r.RNG.Intn(5) == 0), r.RNG.Intn(3)))
+		}
+	}
+	for _, l := range lines {
+		f := verifh.Fields(l)
+		ok := len(f) == 6 && f[0] == "race"
+		for i := 1; ok && i < 6; i++ {
+			ok = isUint(f[i]) && verifh.U(f[i]) < 64
+		}
+		if !ok || verifh.U(f[1]) < 1 || verifh.U(f[1]) > 6 {
+			r.Emit(l, "bad-op")
+			continue
+		}
+		out := raceRound(t, r, f)
+		if out != "hang" && out[:6] != "finish" {
+			out = "bad-round"
+		}
+		r.Emit(l, out)
+		r.Distinct(l)
+	}
+}
